@@ -406,20 +406,9 @@ def clause_reorg_order(R, F):
              "WIRE|D::reorg|max-source", "depth check does not read the recorded maximum (db_global_values[MAX_BLOCK_NUMBER_KEY]): %s" % show(t)[:200])
     # every other refusal decision of D::reorg is a propagated error of a callee (`?`), not a condition of its own: a reorg
     # inside the window must be accepted
-    eb = error_blocks(fn)
-    for b2 in range(len(fn.blocks)):
-        t2 = fn.term(b2)
-        if t2["k"] != "switch" or fn.is_cleanup(b2) or (guard and b2 == guard[0]):
-            continue
-        succs = fn.succ(b2)
-        rej = [sx for sx in succs if sx in eb or _leads_to_error_only(fn, sx)]
-        if not rej or len(rej) == len(succs):
-            continue
-        d2 = origin(fn, t2["discr"])
-        if d2[0] == "discr" and mentions(d2, "branch"):
-            continue
-        R.violation("GUARD", "%s:%s" % (fn.loc["f"], t2.get("loc", {}).get("l")), "GUARD|D::reorg|unexpected-refusal",
-                    "D::reorg refuses on a condition the contract does not give (`%s`)" % show(d2)[:90])
+    for (ln, cond) in unexpected_refusals(fn, known_blocks={guard[0]} if guard else ()):
+        R.violation("GUARD", "%s:%s" % (fn.loc["f"], ln), "GUARD|D::reorg|unexpected-refusal",
+                    "D::reorg refuses on a condition the contract does not give (`%s`)" % cond)
 
 
 def clause_reorg_height_last(R, F):
@@ -464,6 +453,29 @@ def _leads_to_error_only(fn, s):
     eb = error_blocks(fn)
     reach = fn.reachable(s, avoid=eb)
     return not any(b in reach for b in fn.return_blocks())
+
+
+def unexpected_refusals(fn, known_blocks=(), allow=None):
+    """[(line, condition text)] for the function's own refusal decisions: switches with an edge that leads to Err only (and
+    another that does not), other than `?` on a callee's Result/Option, the blocks in `known_blocks`, and conditions `allow`
+    accepts.  Used where a property says an operation is accepted *whenever* stated conditions hold."""
+    eb = error_blocks(fn)
+    out = []
+    for b in range(len(fn.blocks)):
+        t = fn.term(b)
+        if t["k"] != "switch" or fn.is_cleanup(b) or b in known_blocks:
+            continue
+        succs = [sx for sx in fn.succ(b) if fn.term(sx)["k"] != "unreachable"]
+        rej = [sx for sx in succs if sx in eb or _leads_to_error_only(fn, sx)]
+        if not rej or len(rej) == len(succs):
+            continue
+        d = origin(fn, t["discr"])
+        if d[0] == "discr" and mentions(d, "branch"):
+            continue
+        if allow is not None and allow(d):
+            continue
+        out.append((t.get("loc", {}).get("l"), show(d)[:100]))
+    return out
 
 
 # ---------------------------------------------------------------- stamps
